@@ -52,6 +52,17 @@ PROPS = {
             "a hang is reported only when the decode goroutine is seen running inside the snapshot package twice, 1 s apart, after a 20 s limit",
         ],
     },
+    "C11": {
+        "level": "exploration",
+        "tests": [T("TestC11Mirror", "kv", 4000, 480000, shards=16)],
+        "known_tests": [T("TestKnownC11", "kv", 1, 1)],
+        "assumptions": [
+            "steady state: every step runs with the syncer's own bookkeeping of the last synced transaction id (changes made while the syncer is down are documented to be treated differently)",
+            "instances share one monotone clock: remote versions never carry timestamps later than the local detection time",
+            "live empty application values are excluded by construction (known finding shadow-empty-value) and counted",
+            "remote timestamps never tie with local detection stamps (ties are decided by C01/C02)",
+        ],
+    },
     "C14": {
         "level": "exploration",
         "tests": [
